@@ -67,7 +67,7 @@ claim("C18",
   "DESIGN.md 15.3/C18")
 claim("C19",
   "streamWrapper over the session model: Write delivers all of p or fails, Read returns 1..len(p) bytes in order (0 for empty p), Close is idempotent and releases exactly one reference (WaitGroup never negative); Stream.Read contract for all slice layouts (C06 reader harness); every stream surfaces once through AcceptStream in sequential histories - with one KNOWN FINDING (late data for a stream the server already closed re-creates it).",
-  "Listen/Accept over real unix sockets, the listener's accept loop and reference counting goroutines, deadlines are NOT covered",
+  "Listen/Accept over real unix sockets and deadlines are NOT covered; the listener harnesses examine one schedule of the listener's goroutines plus ONE Listener.Close at a synchronisation point; the conflicting-access check covers the paths of the executed Read/Write pair, scalars shared without synchronisation are listed, not obligations",
   "DESIGN.md 15.3/C19")
 
 claim("C16",
@@ -83,19 +83,23 @@ claim("C14",
   "Containment and resource census over an OS model (sequential): shared memory created by the real initMemManager (memfd) and mapped by the real mappingQueueManagerMemfd / getGlobalBufferManagerWithMemFd; one stream with a message in flight / delivered / partly read; then the connection reports remote close, or Close, or exitErr; the posted teardown lambdas run: nothing panics, the session is closed, Close is idempotent and the teardown is posted once, pending and later stream calls fail, exactly one close callback, no new stream, the peer session closes too, and the OS model's census of descriptors and mappings is back to zero. Deferred work (H_C14_lambdas): the real epollDispatcher.post/runLambda with lambdas posted before and during a running batch: each runs exactly once, none is left pending. Pending call (H_SM_flushwindow, adversary 'session death'): a Flush in its queue-full retry loop stopped at every synchronisation point while the session is closed and its teardown lambda runs (queue manager released): the Flush returns an error, leaves nothing buffered, later reads fail, nothing panics. Sync-point hook family: the main call runs sequentially on the real code and is stopped in front of its k-th synchronisation operation (atomic, lock acquisition, channel operation; k is enumerated) while a closure standing for the other goroutines / the peer runs to completion.",
   "NOT covered: more than one preemption, Close concurrent with traffic on the raw memory (use-after-unmap), a really killed process, real /proc census, the /dev/shm file back-end; OS model: Mmap of the same fd yields the same region, descriptors received over the socket are modelled as extra references; in the session model the queue memory is harness memory (unmap stubbed)",
   "DESIGN.md 15.3/C14")
+CLAIM_EXTRA = {
+ "C14": " Callback waiting for data (H_C14_cbwait, goroutines as coroutines): a callback-mode stream whose OnData waits in a read for bytes that never come when the peer dies / the session is closed / the connection fails: the teardown (which waits for the callback goroutine) returns, the parked read fails, census clean - with KNOWN FINDING F-CBCLOSE (C14 view: no close callback for a stream closed while its OnData is in progress).",
+ "C19": " Listener (H_C19_listener, H_C19_listenwindow; real newListener/listenLoop/Accept/Close, streamWrapper.Close with every goroutine as a coroutine, stub raw listener and stub Server()): every stream surfaces exactly once, Accept fails after Close instead of hanging, a session ends exactly when the listener and all its connections let go, also when Listener.Close lands in front of any synchronisation operation of the connection intake (one genuine defect found and fixed: F-LNDROP). Full duplex (H_C19_duplex): one Read and one Write of the same adapter touch no pointer-like Go-heap location in conflict without a common lock or atomic access (conflicting-access check).",
+}
 claim("C20",
   "Callback mode with harness-scheduled goroutines: gopool.Go is replaced (model and native replay) by a recorder, the harness runs each started callback goroutine to completion right after the event or after later arrivals; per invocation OnData consumes everything / one byte / closes, and in further modes the peer flushes another message or closes WHILE OnData runs (the event loop handles it). Window family (H_C20_window): the callback goroutine is stopped in front of every synchronisation operation (flag store, close-state load, re-check CAS, pending-list lock, ...) while the event loop handles another arrival or the peer's close. Oracles: OnData never nests, bytes are offered in order and never twice, at quiescence every flushed byte has been offered and nothing is left in the receive buffer or pending list, no callback goroutine is left unstarted, the in-process flag is clear, nothing is offered after a local Close. One genuine defect found and fixed (F-CBLATE: data flushed before the peer's close was dropped when the close was handled first). Sync-point hook family: the main call runs sequentially on the real code and is stopped in front of its k-th synchronisation operation (atomic, lock acquisition, channel operation; k is enumerated) while a closure standing for the other goroutines / the peer runs to completion.",
   "ONE burst of event-loop activity per run at a synchronisation point of the callback goroutine (or inside OnData); two or more preemptions, and OnData running in parallel with itself through a second real goroutine, are outside the model; data-race freedom of Go-heap state is assumed",
   "DESIGN.md 15.3/C20")
 
 claim("C17",
-  "Real SessionManager.background (one watcher goroutine per pool), streamPool.close/getOrOpenStream, SessionManager.Close/GetStream/PutBack, Session.Close/onRemoteClose and - for the interplay with hot restart - handleHotRestart, handleSessionManagerHotRestart, SessionManager.checkHotRestart, executed symbolically with the goroutines as coroutines (run until blocked; timers fire only when nobody can proceed) over histories of 1-3 events on 1-2 pools: a session is lost while the server answers after 0-2 refused attempts; the server goes down and a session is lost (retries continue, calls fail); the server comes back; hot restart reaching all or some of the live sessions followed by the old server dropping the old sessions in either order; manager Close at any point (also during a rebuild against an unreachable server). Oracle: a lost session is replaced by a live one of the current epoch after exactly fails+1 attempts, GetStream fails (never hangs) while there is none and works again afterwards, other pools are untouched, pools replaced by hot restart are not rebuilt again, Close returns, closes every session and nothing is rebuilt afterwards.",
+  "Real SessionManager.background (one watcher goroutine per pool), streamPool.close/getOrOpenStream, SessionManager.Close/GetStream/PutBack, Session.Close/onRemoteClose and - for the interplay with hot restart - handleHotRestart, handleSessionManagerHotRestart, SessionManager.checkHotRestart, executed symbolically with the goroutines as coroutines (run until blocked; timers fire only when nobody can proceed) over histories of 1-3 events on 1-2 pools: a session is lost while the server answers after 0-2 refused attempts; the server goes down and a session is lost (retries continue, calls fail); the server comes back; hot restart reaching all or some of the live sessions followed by the old server dropping the old sessions in either order; manager Close at any point (also during a rebuild against an unreachable server, and while a replacement session is being established: the stub then takes time). Oracle: a lost session is replaced by a live one of the current epoch after exactly fails+1 attempts, GetStream fails (never hangs) while there is none and works again afterwards, other pools are untouched, pools replaced by hot restart are not rebuilt again, Close returns, closes every session and nothing is rebuilt afterwards.",
   "ONE schedule per history: goroutines run round-robin until each blocks, a time-out or Sleep only fires when no party can proceed (at most 12 firings per scheduler run); the harness' events fall between such quiescent points, NOT in the middle of a watcher's step; newClientSession is a stub (reachability of the real server, dialling, the handshake are not part of this check); context.WithCancel is a stub with the documented contract; epochs are concrete (0 and 7); elapsed time ('after the rebuild interval') is not measured",
   "DESIGN.md 15.3/C17")
 
 claim("C12",
-  "Real newSession on both ends (memfd client, current server): initMemManager, initProtocol with its goroutine and InitializeTimeout, getProtocolInitializer (version announcement and answer), protocolInitializerV3 client/server, sendMemFdToPeer / handleShareMemoryByMemFd (metadata, ready-ack, descriptor passing, mapping, final ack), blockReadFull/blockWriteFull, and newSession's failure clean-up, executed symbolically with every goroutine as a coroutine over a socket model (two blocking byte FIFOs + a FIFO of passed descriptors; the kernel takes writes whole or in pieces of 3/6 bytes) and the memfd/mmap OS model. Variants: client and server in one process (shared buffer-manager table, as in the repository's tests; natively replayable) and as two processes (each party has its own table: the server maps the buffer memory itself). Faults: one end stops answering in front of its k-th socket call (k = 0..7, either end); the n-th Fstat/Mmap call of the run fails (n = 1..6). Oracle: both calls return; both succeed with the same (highest common) version, both ends map the very same queue and buffer memory, what one end enqueues the other dequeues, or both fail (the end that stopped answering after the other end's last step may fail alone) and no mapping or descriptor is left. One genuine defect found and fixed (F-HSLEAK: descriptors/mappings left behind when setting up the memory fails half-way).",
-  "the parties interact only through blocking FIFO operations (a Kahn network: one schedule stands for all), time-outs fire only when no party can proceed and never race with a late answer; NOT covered: the /dev/shm file back-end and protocol 2 (its OS calls are not modelled), tcp, a peer that dies (closes the socket) or sends garbage (C13 covers post-handshake events only), wall-clock time, kernel aliasing of MAP_SHARED pages and real descriptor passing (OS model: mapping the same file yields the same region), the descriptor obtained from getConnDupFd; VerifyConfig is stubbed (small configuration)",
+  "Real newSession on both ends - memfd client (protocol 3) and /dev/shm file client (protocol 2) against the current server: initMemManager, initProtocol with its goroutine and InitializeTimeout, getProtocolInitializer (version announcement and answer), protocolInitializerV3 client/server, sendMemFdToPeer / handleShareMemoryByMemFd (metadata, ready-ack, descriptor passing, mapping, final ack), protocolInitializerV2 with sendShareMemoryByFilePath / handleShareMemoryByFilePath, createQueueManager / mappingQueueManager / getGlobalBufferManager (file back-end over a named-file OS model), blockReadFull/blockWriteFull, and newSession's failure clean-up, executed symbolically with every goroutine as a coroutine over a socket model (two blocking byte FIFOs + a FIFO of passed descriptors; the kernel takes writes whole or in pieces of 3/6 bytes) and the memfd/mmap OS model. Variants: client and server in one process (shared buffer-manager table, as in the repository's tests; natively replayable) and as two processes (each party has its own table: the server maps the buffer memory itself). Faults: one end stops answering in front of its k-th socket call (k = 0..7, either end); the n-th Fstat/Stat/Mmap call of the run fails (n = 1..6). Oracle: both calls return; both succeed with the same version (3 for the memfd client, 2 for the file client), both ends map the very same queue and buffer memory, what one end enqueues the other dequeues, or both fail (the end that stopped answering after the other end's last step may fail alone) and no mapping, descriptor or file is left. One genuine defect found and fixed (F-HSLEAK: descriptors/mappings left behind when setting up the memory fails half-way); KNOWN FINDING F-V2NOACK (the protocol 2 client succeeds without waiting for the server).",
+  "the parties interact only through blocking FIFO operations (a Kahn network: one schedule stands for all), time-outs fire only when no party can proceed and never race with a late answer; file back-end cases and two-process cases are reported at model level (no native counterpart); NOT covered: tcp, older servers (maxSupportProtoVersion is a constant of the code), a peer that dies (closes the socket) or sends garbage (C13 covers post-handshake events only), wall-clock time, kernel aliasing of MAP_SHARED pages and real descriptor passing (OS model: mapping the same file yields the same region), the descriptor obtained from getConnDupFd; VerifyConfig is stubbed (small configuration)",
   "DESIGN.md 15.3/C12")
 
 NOT_APPLICABLE = {
@@ -115,9 +119,10 @@ def main():
             "evidence_file": "/verif/evidence/%s.json" % pid,
             "replay_cmd_template": "cat {path}  # the check itself re-runs the replay; the file holds inputs, shape, schedule and trace",
             "engine": "gosmt",
-            "level_claimed": {"category": cat, "text": text, "design_ref": ref},
+            "level_claimed": {"category": cat, "text": text + CLAIM_EXTRA.get(pid, ""), "design_ref": ref},
             "level_note": note,
-            "technique": TECH % (" and a symbolic thread schedule (lazy round-robin sequentialisation)" if conc else ""),
+            "technique": TECH % (" and a symbolic thread schedule (lazy round-robin sequentialisation)" if conc else "") + (
+                "; goroutines started by the code under test run as coroutines of the symbolic run (parked at blocking operations, time-outs fire at quiescence)" if pid in ("C12", "C14", "C17", "C19") else ""),
         })
     na = [{"property_id": p, "reason": r} for p, r in sorted(NOT_APPLICABLE.items())]
     allp = ["C%02d" % i for i in range(1, 21)]
